@@ -41,10 +41,15 @@ static CH *W(raws)[NVARIANTS][NRAW];
 static CH **W(raw) = W(raws)[0];
 static size_t W(rawlen)[NRAW];
 
+/* long source of position-dependent characters (no period, no NUL): aux == RAW_PATTERN in *_str_n */
+static CH *W(patterns)[NVARIANTS];
+static CH *W(pattern);
+
 static void W(set_variant)(int v)
 {
     W(alpha) = W(alphas)[v];
     W(raw) = W(raws)[v];
+    W(pattern) = W(patterns)[v];
 }
 
 struct W(ref) { CH *c; size_t n; };
@@ -62,6 +67,14 @@ static void W(init_raws)(void)
         W(raws)[v][i][n] = 0;
         W(rawlen)[i] = n;
     }
+    for (v = 0; v < NVARIANTS; v++) {
+        size_t j;
+        W(patterns)[v] = vrt_alloc((PATLEN + PATSLACK + 1) * CW);
+        for (j = 0; j < PATLEN + PATSLACK; j++)
+            W(patterns)[v][j] = W(alphas)[v][(((uint32_t)j * 2654435761u) >> 11 ^ (uint32_t)j >> 3) % 3];
+        W(patterns)[v][PATLEN + PATSLACK] = 0;
+    }
+    W(pattern) = W(patterns)[0];
 }
 
 static void W(create)(int scope)
@@ -268,7 +281,7 @@ static int W(do_op)(int kind, int d, size_t pos, size_t cnt, int aux, int audit)
     volatile ssize_t rv = 0;
     volatile int irv = 0;
     int ab, gc, pc, cc = CC_NONE, wrapped = 0, touched = 1 << d;
-    size_t n, newlen, avail, i;
+    size_t n, newlen, avail, i, rl = 0;
     const CH *src = NULL;
     CH ch = 0;
 
@@ -288,10 +301,11 @@ static int W(do_op)(int kind, int d, size_t pos, size_t cnt, int aux, int audit)
         } else if (kind == K_INSERT || kind == K_APPEND) {
             src = ro->c; n = ro->n;              /* distinct object: never inserted into itself */
         } else {
-            if (aux >= NRAW) return 0;
-            src = W(raw)[aux];
-            n = (kind == K_INSERT_STR || kind == K_APPEND_STR) ? W(rawlen)[aux] : cnt;
-            if (n > W(rawlen)[aux]) return 0;   /* domain: at most the characters the raw string has */
+            if (aux == RAW_PATTERN && (kind == K_INSERT_STR_N || kind == K_APPEND_STR_N)) { src = W(pattern); rl = PATLEN; }
+            else if (aux >= NRAW) return 0;
+            else { src = W(raw)[aux]; rl = W(rawlen)[aux]; }
+            n = (kind == K_INSERT_STR || kind == K_APPEND_STR) ? rl : cnt;
+            if (n > rl) return 0;               /* domain: at most the characters the raw string has */
         }
         if (kind == K_APPEND || kind == K_APPEND_CH || kind == K_APPEND_STR || kind == K_APPEND_STR_N) {
             pos = size; pc = PC_END; avail = 0;
@@ -306,7 +320,7 @@ static int W(do_op)(int kind, int d, size_t pos, size_t cnt, int aux, int audit)
         if (gc != GR_ABORT && newlen > g_refcap) return 0;
         if (kind == K_INSERT_CH || kind == K_APPEND_CH) cc = growclass(size, n, wrapped, CW);
         else if (kind == K_INSERT_STR_N || kind == K_APPEND_STR_N)
-            cc = n == 0 ? CC_0 : n < W(rawlen)[aux] ? CC_PART : CC_ALL;
+            cc = n == 0 ? CC_0 : n < rl ? CC_PART : CC_ALL;
         if (n == 0 && pos <= size && SX(data)(s) == NULL) VRT_COUNT("insert.zero-length.never-allocated");
         g_ncalls[WIDE]++;
         switch (kind) {
@@ -727,6 +741,318 @@ static void W(make_class)(int k, int cls)
         W(do_op)(K_ERASE, k, 3, 19, 0, 0);
         break;
     }
+}
+
+/* ------------------------------------------------------------------ */
+/* long strings x the overflow argument classes                         */
+/* ------------------------------------------------------------------ */
+static size_t W(longL), W(long_spare);
+static int W(long_dirty);
+
+/* cheap audit: size, storage, terminator, memcmp against the reference, a few at() probes */
+static void W(long_audit)(int k)
+{
+    STRUCT *s = &W(S)[k];
+    const struct W(ref) *r = &W(R)[k];
+    char key[120];
+    size_t sz, bsz = 0, i, idx[3];
+    const CH *p;
+    void *base;
+    volatile const CH *volatile q;
+    int ab;
+
+    g_ncalls[WIDE] += 4;
+    sz = SX(size)(s);
+    if (sz != r->n) {
+        snprintf(key, sizeof(key), KEY("size.after.%s"), g_after);
+        vrt_fail(key, "long object %d: size %zu, reference %zu", k, sz, r->n);
+    }
+    p = SX(str)(s);
+    if (p == NULL) {
+        snprintf(key, sizeof(key), KEY("str.null.after.%s"), g_after);
+        vrt_fail(key, "long object %d: str() returned NULL", k);
+    }
+    base = vrt_lib_block(p, &bsz);
+    if ((r->n != 0 || base != NULL) &&
+        (base == NULL || (size_t)((const char *)base + bsz - (const char *)p) < (r->n + 1) * CW)) {
+        snprintf(key, sizeof(key), KEY("storage.too-small.after.%s"), g_after);
+        vrt_fail(key, "long object %d: str() is not a live block of >= (size+1)*w = %zu bytes (block %p, %zu bytes)",
+                 k, (r->n + 1) * CW, base, bsz);
+    }
+    if (p[r->n] != 0) {
+        snprintf(key, sizeof(key), KEY("str.not-terminated.after.%s"), g_after);
+        vrt_fail(key, "long object %d: str()[size=%zu] is 0x%lx, not NUL", k, r->n, (unsigned long)p[r->n]);
+    }
+    if (memcmp(p, r->c, (r->n + 1) * CW) != 0) {
+        for (i = 0; i < r->n && p[i] == r->c[i]; i++) ;
+        snprintf(key, sizeof(key), KEY("str.content.after.%s"), g_after);
+        vrt_fail(key, "long object %d: character %zu of %zu is 0x%lx, reference 0x%lx", k, i, r->n,
+                 (unsigned long)p[i], (unsigned long)r->c[i]);
+    }
+    if (r->n != 0 && SX(data)(s) != p) {
+        snprintf(key, sizeof(key), KEY("data.differs-from-str.after.%s"), g_after);
+        vrt_fail(key, "long object %d: data() != str() with size %zu", k, r->n);
+    }
+    if (SX(capacity)(s) < sz) {
+        snprintf(key, sizeof(key), KEY("capacity.below-size.after.%s"), g_after);
+        vrt_fail(key, "long object %d: capacity %zu < size %zu", k, SX(capacity)(s), sz);
+    }
+    idx[0] = 0; idx[1] = r->n / 2; idx[2] = r->n ? r->n - 1 : 0;
+    for (i = 0; i < 3 && r->n != 0; i++) {
+        g_ncalls[WIDE]++;
+        if ((i ^ g_flip) & 1) ab = VRT_ABORTS(q = SX(at)(s, idx[i]));
+        else ab = VRT_ABORTS(q = SX(at_const)(s, idx[i]));
+        if (ab || q != p + idx[i]) {
+            snprintf(key, sizeof(key), KEY("at.in-range.after.%s"), g_after);
+            vrt_fail(key, "long object %d: at(%zu) %s (size %zu)", k, idx[i], ab ? "aborted" : "is not str + i", r->n);
+        }
+    }
+    if ((g_flip & 3) == 0) {
+        g_ncalls[WIDE]++;
+        ab = VRT_ABORTS(q = SX(at)(s, r->n));
+        if (!ab) {
+            snprintf(key, sizeof(key), KEY("at.size.no-abort.after.%s"), g_after);
+            vrt_fail(key, "long object %d: at(size=%zu) returned instead of aborting", k, r->n);
+        }
+        VRT_COUNT("abort.required.at-index");
+        g_naborts[WIDE]++;
+    }
+    g_flip++;
+    VRT_COUNT("call.size"); VRT_COUNT("call.str"); VRT_COUNT("call.data"); VRT_COUNT("call.capacity");
+    VRT_COUNT("long.audit.object");
+    if (r->n >= 4095) VRT_COUNT("long.audit.object.size>=4095");
+    if (r->n >= 65535) VRT_COUNT("long.audit.object.size>=65535");
+}
+
+/* object d := the first L characters of the pattern, built in one go from a cleared object */
+static void W(long_build)(int d, size_t L, size_t spare)
+{
+    STRUCT *s = &W(S)[d];
+    struct W(ref) *r = &W(R)[d];
+    const CH *src = W(pattern) + (d ? 29 : 0);
+    if (L > PATLEN || L > g_refcap) vrt_fail("harness.string.long-build", "length %zu", L);
+    g_ncalls[WIDE]++;
+    VRT_OP1(SNAME ".clear", "s%ld", d);
+    SX(clear)(s);
+    r->n = 0; r->c[0] = 0;
+    if (spare) {
+        g_ncalls[WIDE]++;
+        VRT_OP2(SNAME ".reserve", "s%ld n=%lu", d, L + spare);
+        SX(reserve)(s, L + spare);
+    }
+    if (L) {
+        g_ncalls[WIDE]++;
+        VRT_OP2(SNAME ".append_str_n", "s%ld pattern n=%lu", d, L);
+        SX(append_str_n)(s, src, L);
+        memcpy(r->c, src, L * CW);
+        r->c[L] = 0; r->n = L;
+    }
+    g_after = "append_str_n";
+    if (d == 0) W(long_dirty) = 0;
+    VRT_COUNT("long.builds");
+}
+static void W(long_other)(size_t olen)
+{
+    if (W(R)[1].n != olen) W(long_build)(1, olen, 0);
+}
+
+/* lowmode: 0 standard allocator cap; 1 cap = object 0's capacity + 17 characters; 2 cap = 64 characters */
+static int W(long_cell)(int kind, size_t pos, size_t cnt, int aux, int lowmode)
+{
+    const size_t L = W(longL);
+    const uint64_t ab0 = g_naborts[WIDE];
+    int made, aborted, i, grows = 0, mutates = 1;
+    char key[120];
+
+    if (W(long_dirty) || W(R)[0].n != L) W(long_build)(0, L, W(long_spare));
+    if (lowmode == 1) vrt_alloc_cap = (SX(capacity)(&W(S)[0]) + 1 + 16) * CW;
+    else if (lowmode == 2) vrt_alloc_cap = 64 * CW;
+    vrt_ev_begin();
+    made = W(do_op)(kind, 0, pos, cnt, aux, 0);
+    vrt_alloc_cap = VRT_ALLOC_CAP;
+    if (!made) { VRT_COUNT("long.cells.outside-domain"); return 0; }
+    aborted = g_naborts[WIDE] != ab0;
+    switch (kind) {
+    case K_INSERT_CH: case K_INSERT_STR_N: case K_INSERT_STR: case K_INSERT:
+    case K_APPEND_CH: case K_APPEND_STR_N: case K_APPEND_STR: case K_APPEND: case K_RESIZE:
+        grows = 1; break;
+    case K_SUBSTR: mutates = 0; break;
+    }
+    if (aborted && grows) {
+        /* own oracle next to ASan: a growth that must abort cannot have obtained a buffer that does not even hold
+         * the characters already there (the size of the request was computed with a wrapped / truncated length) */
+        for (i = 0; i < vrt_ev_n(); i++) {
+            const struct vrt_aev *e = vrt_ev(i);
+            if (e->kind != 'f' && !e->failed && e->sz < (L + 1) * CW) {
+                snprintf(key, sizeof(key), KEY("%s.unsatisfiable-growth.undersized-request"), kname[kind]);
+                vrt_fail(key, "%s on a string of %zu characters that must abort obtained a block of %zu bytes before the abort",
+                         kname[kind], L, e->sz);
+            }
+        }
+        VRT_COUNT("long.abort.no-undersized-request");
+    }
+    W(long_audit)(0);
+    W(long_audit)(1);
+    if (aborted) {
+        VRT_COUNT("long.abort.object-unchanged");
+        if (pos > L) VRT_COUNT("long.abort.pos-beyond-end");
+        else if (lowmode) VRT_COUNT("long.abort.growth-over-lowered-cap");
+        else if (grows) VRT_COUNT("long.abort.growth-unrepresentable-or-over-cap");
+    } else if (mutates) {
+        W(long_dirty) = 1;
+    }
+    VRT_COUNT("long.cells");
+    return 1;
+}
+
+static void W(run_long)(size_t L, size_t spare)
+{
+    const size_t M = SIZE_MAX, U = SIZE_MAX / CW, T = (size_t)1 << 32, A = VRT_ALLOC_CAP / CW;
+    const size_t c16 = L < 65536 ? 65536 - L + 1 : 65536;
+    const size_t gabort[] = {
+        M, M - 1, M - 2, M - L, M - L + 1, M - L - 1, (size_t)1 << 62, (size_t)1 << 63, A + 1, VRT_ALLOC_CAP,
+        U, U + 1, U - 1, U - 2, U - L, U - L - 1, U - L - 2, T, T + 1, T - L, T - L + 1, T - L - 1, T - L + 5,
+        T / CW - L, T / CW - L - 1
+    };
+    const size_t gok[] = { 0, 1, 7, c16 };
+    const size_t rabort[] = {
+        M, M - 1, M - 2, (size_t)1 << 62, (size_t)1 << 63, A, A + 1, U, U + 1, U - 1, U - 2,
+        T, T + 1, T - 1, T + L, T + L + 1, T + L - 1, T + 10, T / CW - 1, T / CW, T / CW + L
+    };
+    size_t vpos[6], bpos[8], epos[5];
+    const int ngab = sizeof(gabort) / sizeof(gabort[0]), ngok = sizeof(gok) / sizeof(gok[0]);
+    const int nrab = sizeof(rabort) / sizeof(rabort[0]);
+    int nv = 0, nb = 0, ne = 0, i, j, k;
+
+    W(longL) = L; W(long_spare) = spare; W(long_dirty) = 0;
+    W(create)(0);
+    W(long_build)(0, L, spare);
+    if (SX(capacity)(&W(S)[0]) == L) VRT_COUNT("long.strings.capacity==size");
+    else VRT_COUNT("long.strings.spare-capacity");
+    W(long_audit)(0);
+
+    vpos[nv++] = 0; vpos[nv++] = L / 2; vpos[nv++] = L - 1; vpos[nv++] = L;
+    if (L > 4097) vpos[nv++] = 4096;
+    if (L > 65537) vpos[nv++] = 65536;
+    bpos[nb++] = L + 1; bpos[nb++] = L + 2; bpos[nb++] = L + 1000; bpos[nb++] = T; bpos[nb++] = T + L / 2;
+    bpos[nb++] = (size_t)1 << 63; bpos[nb++] = M - 1; bpos[nb++] = M;
+    epos[ne++] = 0; epos[ne++] = 1; epos[ne++] = L / 2; epos[ne++] = L - 2; epos[ne++] = L - 1;
+
+    /* insert_ch / append_ch: every growth count at every valid position; positions beyond the end */
+    for (i = 0; i < nv; i++) {
+        for (j = 0; j < ngab; j++) W(long_cell)(K_INSERT_CH, vpos[i], gabort[j], (i + j) % 3, 0);
+        for (j = 0; j < ngok; j++) W(long_cell)(K_INSERT_CH, vpos[i], gok[j], (i + j) % 3, 0);
+        W(long_cell)(K_INSERT_CH, vpos[i], spare + 40, 1, 1);
+    }
+    for (i = 0; i < nb; i++) {
+        W(long_cell)(K_INSERT_CH, bpos[i], 0, 0, 0);
+        W(long_cell)(K_INSERT_CH, bpos[i], 1, 1, 0);
+        W(long_cell)(K_INSERT_CH, bpos[i], M - bpos[i] + 1, 2, 0);
+        W(long_cell)(K_INSERT_CH, bpos[i], M, 0, 0);
+    }
+    for (j = 0; j < ngab; j++) W(long_cell)(K_APPEND_CH, 0, gabort[j], j % 3, 0);
+    for (j = 0; j < ngok; j++) W(long_cell)(K_APPEND_CH, 0, gok[j], j % 3, 0);
+    W(long_cell)(K_APPEND_CH, 0, spare + 40, 1, 1);
+
+    /* insert_str_n / insert_str / insert / append*: sources as long as they claim; growth refused by a lowered cap */
+    for (i = 0; i < nv; i++) {
+        W(long_cell)(K_INSERT_STR_N, vpos[i], 0, RAW_PATTERN, 0);
+        W(long_cell)(K_INSERT_STR_N, vpos[i], 1, RAW_PATTERN, 0);
+        W(long_cell)(K_INSERT_STR_N, vpos[i], 40, RAW_LONG40, 0);
+        W(long_cell)(K_INSERT_STR_N, vpos[i], 5000, RAW_PATTERN, 0);
+        W(long_cell)(K_INSERT_STR_N, vpos[i], c16, RAW_PATTERN, 0);
+        W(long_cell)(K_INSERT_STR_N, vpos[i], spare + 40, RAW_PATTERN, 1);
+        W(long_cell)(K_INSERT_STR_N, vpos[i], 5000, RAW_PATTERN, 1);
+        W(long_cell)(K_INSERT_STR, vpos[i], 0, RAW_LONG24, 0);
+        W(long_cell)(K_INSERT_STR, vpos[i], 0, RAW_LONG40, spare <= 16 ? 1 : 0);
+        W(long_other)(i & 1 ? 3 : 5000);
+        W(long_cell)(K_INSERT, vpos[i], 0, 0, 0);
+        W(long_other)(5000);
+        W(long_cell)(K_INSERT, vpos[i], 0, 0, 1);
+    }
+    W(long_cell)(K_INSERT_STR_N, L / 2, PATLEN, RAW_PATTERN, 0);
+    for (i = 0; i < nb; i++) {
+        W(long_cell)(K_INSERT_STR_N, bpos[i], 0, RAW_ABC, 0);
+        W(long_cell)(K_INSERT_STR_N, bpos[i], 3, RAW_ABC, 0);
+        W(long_cell)(K_INSERT_STR_N, bpos[i], 5000, RAW_PATTERN, 0);
+        W(long_cell)(K_INSERT_STR, bpos[i], 0, RAW_AB, 0);
+        W(long_other)(i & 1 ? 3 : 0);
+        W(long_cell)(K_INSERT, bpos[i], 0, 0, 0);
+    }
+    W(long_cell)(K_APPEND_STR_N, 0, 0, RAW_PATTERN, 0);
+    W(long_cell)(K_APPEND_STR_N, 0, 5000, RAW_PATTERN, 0);
+    W(long_cell)(K_APPEND_STR_N, 0, c16, RAW_PATTERN, 0);
+    W(long_cell)(K_APPEND_STR_N, 0, 5000, RAW_PATTERN, 1);
+    W(long_cell)(K_APPEND_STR, 0, 0, RAW_LONG40, 0);
+    W(long_cell)(K_APPEND_STR, 0, 0, RAW_LONG40, spare <= 16 ? 1 : 0);
+    W(long_other)(5000);
+    W(long_cell)(K_APPEND, 0, 0, 0, 0);
+    W(long_cell)(K_APPEND, 0, 0, 0, 1);
+
+    /* resize / reserve: requested lengths */
+    for (j = 0; j < nrab; j++) {
+        W(long_cell)(K_RESIZE, 0, rabort[j], 0, 0);
+        W(long_cell)(K_RESERVE, 0, rabort[j], 0, 0);
+    }
+    {
+        const size_t rok[] = { L, L + 1, L - 1, L + 5, L + c16, 10, 0 };
+        for (j = 0; j < (int)(sizeof(rok) / sizeof(rok[0])); j++) {
+            W(long_cell)(K_RESIZE, 0, rok[j], 0, 0);
+            W(long_cell)(K_RESERVE, 0, rok[j], 0, 0);
+        }
+        W(long_cell)(K_RESIZE, 0, L + spare + 40, 0, 1);
+        W(long_cell)(K_RESERVE, 0, L + spare + 40, 0, 1);
+    }
+
+    /* erase / substr: counts reaching past the end are truncated */
+    for (i = 0; i < ne; i++) {
+        const size_t pos = epos[i], av = L - pos;
+        const size_t cnts[] = { 0, 1, av - 1, av, av + 1, M, M - 1, M - pos, M - pos + 1, M - pos - 1,
+                                (size_t)1 << 63, (size_t)1 << 62, T, T + 1, T - pos, T - pos + 1, T + av, T / CW - pos };
+        for (j = 0; j < (int)(sizeof(cnts) / sizeof(cnts[0])); j++) {
+            W(long_cell)(K_ERASE, pos, cnts[j], 0, 0);
+            if ((i + j) % 5 == 0) W(long_other)(0);
+            W(long_cell)(K_SUBSTR, pos, cnts[j], 0, 0);
+        }
+    }
+    for (k = 0; k < 2; k++) {
+        const int kind = k ? K_SUBSTR : K_ERASE;
+        W(long_cell)(kind, L, 0, 0, 0); W(long_cell)(kind, L, 1, 0, 0); W(long_cell)(kind, L, M, 0, 0);
+        for (i = 0; i < nb; i++) {
+            W(long_cell)(kind, bpos[i], 0, 0, 0);
+            W(long_cell)(kind, bpos[i], 1, 0, 0);
+            W(long_cell)(kind, bpos[i], M, 0, 0);
+            W(long_cell)(kind, bpos[i], M - bpos[i] + 1, 0, 0);
+        }
+    }
+    W(long_other)(0);
+    W(long_cell)(K_SUBSTR, 0, M, 0, 2);           /* the copy cannot be allocated: abort, both unchanged */
+    W(long_cell)(K_SUBSTR, L / 2, L, 0, 2);
+    W(long_cell)(K_SUBSTR, L - 10, M, 0, 2);      /* 10 characters fit */
+
+    /* erase most of it (0, 1, 10 characters stay), with and without a following shrink, then grow again */
+    for (i = 0; i < 3; i++) for (j = 0; j < 5; j++) for (k = 0; k < 2; k++) {
+        const size_t keep = i == 0 ? 0 : i == 1 ? 1 : 10;
+        switch (j) {
+        case 0: W(long_cell)(K_ERASE, keep, M, 0, 0); break;                   /* head stays, count to the end */
+        case 1: W(long_cell)(K_ERASE, keep, L - keep, 0, 0); break;            /* exact count */
+        case 2: W(long_cell)(K_ERASE, 0, L - keep, 0, 0); break;               /* tail stays */
+        case 3: W(long_cell)(K_ERASE, keep / 2, L - keep, 0, 0); break;        /* both ends stay */
+        default: W(long_cell)(K_ERASE, keep, (size_t)1 << 63, 0, 0); break;
+        }
+        if (W(R)[0].n != keep) vrt_fail("harness.string.long-erase-most", "reference has %zu characters", W(R)[0].n);
+        VRT_COUNT("long.erase-most");
+        if (k) {
+            W(do_op)(K_RESIZE, 0, 0, keep / 2, 0, 0); W(long_audit)(0);
+            W(do_op)(K_SWAP, 0, 0, 0, 0, 0); W(long_audit)(0); W(long_audit)(1);
+            W(do_op)(K_SWAP, 0, 0, 0, 0, 0); W(long_audit)(0); W(long_audit)(1);
+            VRT_COUNT("long.erase-most.then-shrink");
+        }
+        W(do_op)(K_APPEND_CH, 0, 0, 3, 1, 0); W(long_audit)(0);
+        W(do_op)(K_INSERT_STR_N, 0, 0, 5000, RAW_PATTERN, 0); W(long_audit)(0);
+        W(long_dirty) = 1;
+    }
+    W(destroy)();
 }
 
 #undef SX
